@@ -138,7 +138,7 @@ func H_C13_dedup() { vfC13Dedup(1, 3, 2, 3, vfC13Residue) }
 // H_C13_dedup_deep: four rows (up to 15 ways of being pairwise identical), nucleotide alphabet only.
 // bounds: n=4 rows, L<=2 columns, residues in {A,N,-}, nucleotide alphabet, nAsGap in {false,true}
 // outside: n>4, L>2, other residues and alphabets (covered for n<=3 by H_C13_dedup)
-// verif: tier=thorough
+//verif: tier=thorough
 func H_C13_dedup_deep() {
 	vfC13Dedup(4, 4, 2, 1, func(c uint8) bool { return c == 'A' || c == 'N' || c == '-' })
 }
@@ -187,7 +187,7 @@ func H_C13_dedup_bag() { vfC13DedupBag(1, 3, 2) }
 // H_C13_dedup_bag_deep: four sequences, each empty or of one residue.
 // bounds: n=4 sequences of individual lengths 0..1, residues in {A,C,N,X,-}, alphabet amino acids or nucleotides, nAsGap in {false,true}
 // outside: n>4, longer sequences (covered for n<=3 by H_C13_dedup_bag)
-// verif: tier=thorough
+//verif: tier=thorough
 func H_C13_dedup_bag_deep() { vfC13DedupBag(4, 4, 1) }
 
 func vfC13SameCol(a [][]uint8, ca int, b [][]uint8, cb int) bool {
@@ -262,7 +262,7 @@ func H_C13_compress_rows() { vfC13Compress(3, 3, vfC13Printable) }
 // H_C13_compress_deep: as H_C13_compress_rows, deeper.
 // bounds: n<=3 rows, L<=4 columns, residues printable ASCII
 // outside: n>3, L>4
-// verif: tier=thorough
+//verif: tier=thorough
 func H_C13_compress_deep() { vfC13Compress(3, 4, vfC13Printable) }
 
 func vfC13Printable(c uint8) bool { return c >= 0x21 && c <= 0x7e }
